@@ -57,6 +57,17 @@ CLAIMS = {
    note=COMMON_NOTE + "HMAC/SHA are parameters (OpenSSL tied only by the python oracle); strtol option syntax not modelled; the step from equal subkeys to credential acceptance is C02/C10 and is exercised here only by the thorough-tier two-daemon run.",
    technique="Lean 4 theorems (induction over expand rounds and read chunks) on a model regenerated from the C source + differential correspondence + python RFC 5869 oracle",
    ref="5/C20"),
+
+ "C14": dict(
+   text="Proof. Theorems (Props/C14.lean) over generic pack/unpack/length interpreters applied to per-type field-descriptor lists that tools/gen/g_wire.py re-extracts from _msg_length/_msg_pack/"
+        "_msg_unpack, m_msg_recv/send, m_msg_reset and m_msg.h on every run: the three lists agree for all 6 types; unpack(pack m) = m and length = bytes produced for every well-formed message; "
+        "for EVERY byte string, type code 0..255 and malloc behaviour unpack reads only inside the buffer and writes each variable field only inside its destination (decidable `guarded` "
+        "predicate on the generated lists + generic proof); header strictness; the recv length gate precedes any allocation/read; send gate; set_err first-wins; reset. Tie: real m_msg.c "
+        "(#included) under ASan/UBSan diffed against the model on ~19k ops (round trips, every truncation, every length class, all 256 type codes, garbage) and judged by an independent "
+        "python reference codec that also checks that members the packet never reaches stay untouched.",
+   note=COMMON_NOTE + "_pack/_unpack/_alloc/_copy themselves and the step order inside recv/send are hand-modelled and tied by correspondence and the chain-order theorem; a socket is modelled as bytes followed by EOF. Found F2 and F8 (fixed).",
+   technique="Lean 4 theorems (generic interpreter proofs + decide on field lists regenerated from the C source) + differential correspondence under ASan + python reference codec",
+   ref="5/C14"),
 }
 NA_REASON = "check not built yet (work in progress, see DESIGN.md section 7 staging)"
 
